@@ -318,6 +318,59 @@ func runC18(c *Ctx) {
 	// R18.8 the text that is lexed is the input itself
 	checkParseInput(c, p)
 
+	// R18.12 languages without string literals: the lexer does not look for strings in files whose quotes are plain text
+	// (HTML). Whatever makes it skip the string syntax for one language must hold for every language with the same
+	// comment style (Markdown shares HTML's style and is prose too): otherwise an apostrophe hides every comment behind it.
+	{
+		qc := p.Func(langPkg, "(Language).QuoteCharacter")
+		exempt := map[string]bool{}
+		nSites := 0
+		for _, fn := range lexFns {
+			for _, call := range core.CallsIn(fn) {
+				if qc == nil || call.Common().StaticCallee() != qc {
+					continue
+				}
+				nSites++
+				for _, f := range core.FactsAtInstr(call.(ssa.Instruction)) {
+					cmp, ok := f.AsCmp()
+					if !ok || cmp.Op != token.NEQ {
+						continue
+					}
+					for _, pair := range [][2]ssa.Value{{cmp.X, cmp.Y}, {cmp.Y, cmp.X}} {
+						cst, isC := pair[1].(*ssa.Const)
+						if !isC || cst.Value == nil || !types.Identical(cst.Type(), langT) {
+							continue
+						}
+						for _, l := range langs {
+							if l.Val().ExactString() == cst.Value.ExactString() {
+								exempt[l.Name()] = true
+							}
+						}
+					}
+				}
+			}
+		}
+		if c.R.Anchor(nSites > 0, "lex: call of Language.QuoteCharacter") {
+			var missing []string
+			for e := range exempt {
+				for _, l := range langs {
+					if styleOf[l.Name()] == styleOf[e] && styleOf[e] != defStyle && !exempt[l.Name()] {
+						missing = append(missing, l.Name()+" (style "+styleOf[e]+", like "+e+")")
+					}
+				}
+			}
+			sort.Strings(missing)
+			var ex []string
+			for e := range exempt {
+				ex = append(ex, e)
+			}
+			sort.Strings(ex)
+			c.R.Check(len(missing) == 0, "R18.12", "lex: the languages whose quotes are plain text are all the languages of their comment style", p.Pos(lex.Pos()),
+				"string syntax is skipped for "+strings.Join(ex, ", ")+"; no other language shares their comment style",
+				"string syntax is skipped for "+strings.Join(ex, ", ")+" but not for "+strings.Join(missing, ", ")+": in such a file an apostrophe or quotation mark opens a \"string\" that hides the comments behind it")
+		}
+	}
+
 	// R18.9 string contents become a comment only for Python triple-quoted strings
 	checkDocStringFlag(c, p, lexFns, cfg)
 
